@@ -395,6 +395,7 @@ def apply_contract(ex, contract: Contract, fobj, args, kwargs, constructing=None
         selfobj = ex.bm.new_object(constructing)
         st.rec(selfobj)["open"] = True
         args = [selfobj] + list(args[1:])
+    st.ghost.setdefault("calls", []).append(qn)  # control-flow ghost: which contracts were applied on this path
     env = ex.bind_params(finfo.node, args, kwargs, qn)
     for nm_, v_ in list(env.items()):  # values whose Python kind is fixed by the callee's type argument
         if hasattr(v_, "resolve") and isinstance(env.get("att"), str):
